@@ -170,6 +170,11 @@ func VerifHarness_C16_Views5() {
 	for i := 0; i < n; i++ {
 		entries = append(entries, SearchEntry{Query: []string{"a", "b", "c"}[verifIntRange("hq", 0, 2)], Timestamp: time.Unix(int64(1000+i), 0), ResultsCount: 1, Duration: 5})
 	}
+	if verifBool("noTimestamps") { // a hand-written or older file: entries without a timestamp
+		for i := range entries {
+			entries[i].Timestamp = time.Time{}
+		}
+	}
 	c16ViewsOn(entries)
 }
 
